@@ -2545,6 +2545,7 @@ class Trimesh(Geometry3D):
                     "edges_unique",
                     "edges_unique_idx",
                     "edges_unique_inverse",
+                    "edges_sparse",
                     "faces_unique_edges",
                 }
             )
